@@ -46,6 +46,21 @@ func (d simDist) CDF(x float64) float64 {
 }
 func (d simDist) Bounds() (float64, float64) { return d.lo, d.hi }
 
+// crashDist is a simDist whose CDF panics while armed (armed only by a
+// history-mode intervening call, never while tasks run concurrently; no
+// counters: nothing here is written during the concurrent phase).
+type crashDist struct {
+	simDist
+	armed bool
+}
+
+func (d *crashDist) CDF(x float64) float64 {
+	if d.armed && x > d.knee {
+		panic(&simenv.Crash{Where: "DistCommon.CDF"})
+	}
+	return d.simDist.CDF(x)
+}
+
 var alts = []stats.LocationHypothesis{stats.LocationLess, stats.LocationDiffers, stats.LocationGreater}
 
 func encT(r *R, t *stats.TTestResult, err error) {
@@ -198,7 +213,7 @@ func catalogue() []entry {
 		}),
 		E("stats.InvCDF", []string{"stats.InvCDF"}, func(g simkit.G, p *pool) call {
 			y := []float64{0.5, 0.025, 0.999, 0, 1, g.Unit()}[g.Intn(6)]
-			which := g.Intn(3)
+			which := g.Intn(4)
 			sd := simDist{lo: -2, hi: 7, knee: float64(g.Range(0, 5))}
 			return call{desc: fmt.Sprintf("dist %d y=%v", which, y), run: func(r *R) {
 				switch which {
@@ -206,6 +221,8 @@ func catalogue() []entry {
 					r.F(stats.InvCDF(stats.NormalDist{Mu: 1, Sigma: 2})(y))
 				case 1:
 					r.F(p.invT(y)) // shared closure over a generic (bisection) inverse
+				case 2:
+					r.F(p.invS(y)) // shared closure over a user-defined distribution (crashable in history mode)
 				default:
 					r.F(stats.InvCDF(sd)(y))
 				}
